@@ -167,4 +167,14 @@ CORPUS = [
     B("b18-logger-row-temp", UROS, "            self.data_list.append(copy.deepcopy(self.data_latest.data))", "            row = copy.deepcopy(self.data_latest.data)\n            self.data_list.append(row)", ["C20"]),
     B("b19-mrp-gate-fresh-names", MRP, "    x_mag = ca.if_else(mag_ret == 0, x_mag, x)\n    W_mag = ca.if_else(mag_ret == 0, W_mag, W)", "    accepted = mag_ret == 0\n    x_mag = ca.if_else(accepted, x_mag, x)\n    W_mag = ca.if_else(accepted, W_mag, W)", ["C11", "C12"]),
     B("b20-codegen-loop-items", CG, "        for f_name in eq:\n            gen.add(eq[f_name])\n", "        for f_name, f in eq.items():\n            gen.add(f)\n", ["C09"]),
+    # ---- benign rewrites met while strengthening after the seeded rounds
+    B("b21-euler-band-sine-form", SO3, "            theta = ca.asin(-arg[2, 0])\n\n            cond1 = ca.fabs(theta - ca.pi / 2) < 1e-3",
+      "            sin_theta = -arg[2, 0]\n            theta = ca.asin(sin_theta)\n\n            cond1 = sin_theta > ca.cos(1e-3)", ["C07", "C02", "C04", "C14", "C01"],
+      "upper gimbal test written on the sine with the same half width"),
+    B("b22-rdd2-mkdir-if-missing", RDD2, "    dest_dir.mkdir(exist_ok=True)\n", "    if not dest_dir.exists():\n        dest_dir.mkdir()\n", ["C09"], "branch on the file system that does not change what is generated"),
+    B("b23-logger-period-local-in-loop", UROS, "            yield simpy.Timeout(self.core, self.dt.get())", "            period = self.dt.get()\n            yield simpy.Timeout(self.core, period)", ["C20"]),
+    B("b24-mag-gate-elapsed-local", EST, "        if not self.initialized or t - self.t_last_mag < (\n            self.dt_min_mag.get() - self.time_eps\n        ):\n            return\n",
+      "        elapsed = t - self.t_last_mag\n        if not self.initialized or elapsed < (\n            self.dt_min_mag.get() - self.time_eps\n        ):\n            return\n", ["C20", "C12"],
+      "elapsed time in a local, stamp still written after the gate"),
+    B("b25-mrp-log-local-norm", SO3, "        theta_sq = ca.dot(r, r)\n        A = SQUARED_SERIES[\"4 atan(x)/x\"](theta_sq)", "        n2 = ca.dot(r, r)\n        A = SQUARED_SERIES[\"4 atan(x)/x\"](n2)", ["C03"]),
 ]
